@@ -205,7 +205,9 @@ static void do_run(char **w, int n)
 		fp = fopen(mktmp("a.bin", buf, len), "rb");
 		r = archive_read_open_FILE(a, fp);
 	} else if (strncmp(src, "multi:", 6) == 0) {
-		size_t k = (size_t)strtoull(src + 6, NULL, 10); if (k > len) k = len;
+		size_t k = src[6] == 'p' ? (size_t)((double)len * (double)strtoull(src + 7, NULL, 10) / 100.0)
+		    : (size_t)strtoull(src + 6, NULL, 10);
+		if (k > len) k = len;
 		const char *names[3]; names[0] = mktmp("a1.bin", buf, k); names[1] = mktmp("a2.bin", buf + k, len - k); names[2] = NULL;
 		r = archive_read_open_filenames(a, names, 10240);
 	} else { printf("bad-op"); archive_read_free(a); free(buf); return; }
@@ -320,6 +322,7 @@ static void do_make(char **w, int n)
 		struct archive_entry *e = archive_entry_new();
 		char name[700]; int nl;
 		unsigned kind = (unsigned)(xr(&rng) % 10);
+		if (strcmp(kv(w, n, "big"), "1") == 0 && i % 2 == 0) kind = 9;   /* a large regular file */
 		if (longnames && xr(&rng) % 4 == 0) {
 			static const int lens[] = {99, 100, 101, 154, 155, 156, 255, 256, 300};
 			nl = lens[xr(&rng) % 9];
@@ -330,6 +333,7 @@ static void do_make(char **w, int n)
 		} else snprintf(name, sizeof name, isar ? "f%d.o" : "dir%d/file_%d.dat", isar ? i : i % 3, i);
 		long sz = sizes[xr(&rng) % (sizeof sizes / sizeof sizes[0])];
 		if (israw) sz = 200000 + (long)(xr(&rng) % 150000);    /* multi-block streams */
+		else if (strcmp(kv(w, n, "big"), "1") == 0 && i % 2 == 0) sz = 66000 + (long)(xr(&rng) % 200000);
 		archive_entry_set_pathname(e, name);
 		archive_entry_set_mtime(e, 1000000000 + i * 3600, 0);
 		archive_entry_set_uid(e, 1000 + i % 3); archive_entry_set_gid(e, 100);
